@@ -1,7 +1,7 @@
 #!/venv/bin/python
 """Run every property's check on a behaviour-preserving patch, in memory.
 
-usage: tools/benigncheck.py <patch.diff> [PROP ...]   (default: all 20)
+usage: tools/benigncheck.py <patch.diff>... [PROP ...]   (default: all 20)
 
 Prints, per property, the violations / analysis errors the patch adds relative
 to the current tree.  Nothing under /repo is touched.
@@ -18,44 +18,64 @@ from sa import check, core, patchlib  # pylint: disable=g-import-not-at-top
 PROPS = ['C%02d' % i for i in range(1, 21)]
 
 
-def _one(args):
-  prop, ov = args
+def _base(prop):
   try:
     _, base = check.run_property(prop, 'quick', write=False)
-    bset = {(v['rule'], v['key']) for v in base.violations}
+  except Exception as e:  # pylint: disable=broad-except
+    return prop, set(), ['baseline: %r' % e]
+  return prop, {(v['rule'], v['key']) for v in base.violations}, list(
+      base.analysis_errors)
+
+
+def _one(args):
+  pf, prop, ov, bset, berrs = args
+  try:
     _, rep = check.run_property(prop, 'quick', write=False, overrides=ov)
   except core.AnalysisError as e:
-    return prop, [], ['ANALYSIS-ERROR %s' % e]
+    return pf, prop, [], ['ANALYSIS-ERROR %s' % e]
   except Exception as e:  # pylint: disable=broad-except
-    return prop, [], ['INTERNAL %r' % e]
+    return pf, prop, [], ['INTERNAL %r' % e]
   new = ['%s %s: %s' % (v['rule'], v['key'][:80], v.get('message', '')[:160])
          for v in rep.violations if (v['rule'], v['key']) not in bset]
-  errs = [e for e in rep.analysis_errors if e not in base.analysis_errors]
-  return prop, new, errs
+  errs = [e for e in rep.analysis_errors if e not in berrs]
+  return pf, prop, new, errs
 
 
 def main():
-  pf = sys.argv[1]
-  props = sys.argv[2:] or PROPS
+  args = sys.argv[1:]
+  patches = [a for a in args if not (len(a) == 3 and a[0] == 'C')]
+  props = [a for a in args if len(a) == 3 and a[0] == 'C'] or PROPS
 
   def read(rel):
     with open(os.path.join(core.REPO_DIR, rel), encoding='utf-8') as f:
       return f.read()
-  with open(pf, encoding='utf-8') as f:
-    ov = patchlib.overrides_for(f.read(), read)
-  for rel, src in ov.items():
-    if rel.endswith('.py'):
-      compile(src, rel, 'exec')
-  bad = 0
+  tasks = []
   with concurrent.futures.ProcessPoolExecutor(max_workers=16) as ex:
-    for prop, new, errs in ex.map(_one, [(p, ov) for p in props]):
+    bases = {p: (b, e) for p, b, e in ex.map(_base, props)}
+    for pf in patches:
+      try:
+        with open(pf, encoding='utf-8') as f:
+          ov = patchlib.overrides_for(f.read(), read)
+        for rel, src in ov.items():
+          if rel.endswith('.py'):
+            compile(src, rel, 'exec')
+      except Exception as e:  # pylint: disable=broad-except
+        print('%s: does not apply (%r)' % (pf, e))
+        continue
+      for p in props:
+        tasks.append((pf, p, ov, bases[p][0], bases[p][1]))
+    counts = {pf: 0 for pf in patches}
+    for pf, prop, new, errs in ex.map(_one, tasks, chunksize=2):
       for x in new:
-        bad += 1
-        print('ALARM %s %s' % (prop, x))
+        counts[pf] += 1
+        print('ALARM %s %s %s' % (pf, prop, x))
       for x in errs:
-        bad += 1
-        print('ERROR %s %s' % (prop, x[:300]))
-  print('%s: %d alarm(s)' % (pf, bad))
+        counts[pf] += 1
+        print('ERROR %s %s %s' % (pf, prop, x[:300]))
+  bad = 0
+  for pf in patches:
+    print('%s: %d alarm(s)' % (pf, counts.get(pf, 0)))
+    bad += counts.get(pf, 0)
   return 1 if bad else 0
 
 
